@@ -141,7 +141,9 @@ def runs(ctx, deep=False):
     key = (id(ctx), bool(deep))
     if key in _cache: return _cache[key]
     progs = programs(ctx, deep)
-    base = [{'shape': sh, 'start': 'none', 'ops': ops, 'faults': [], 'name': name} for name, ops in progs for sh in SHAPES]
+    full = deep or ctx.thorough
+    base = [{'shape': sh, 'start': 'none', 'ops': ops, 'faults': [], 'name': name} for pi, (name, ops) in enumerate(progs) for sh in SHAPES
+            if full or pi < len(TEMPLATES) or SHAPES[pi % 3] == sh]      # quick tier: seeded random programs in one (rotating) shape
     outs0 = cc.run_driver({'mode': 'sessions', 'cases': base})
     fcases, ccases = [], []
     for c, o in zip(base, outs0):
@@ -151,8 +153,10 @@ def runs(ctx, deep=False):
             fcases.append(dict(c, faults=[k]))
         # real crashes: every call index; in the quick tier every shape for the first templates, one shape (rotating) for the other programs
         pi = [p[0] for p in progs].index(c['name'])
-        if deep or ctx.thorough or pi < 2 or SHAPES[pi % 3] == c['shape']:
+        if full or pi == 0 or (pi < len(TEMPLATES) and SHAPES[pi % 3] == c['shape']) or (pi == 6 and c['shape'] == 'opt'):
             for k in range(n + 1):
+                # quick tier: a crash before a cursor() call leaves the same file as a crash before the statement that follows it
+                if not full and k < n and o['trace'][k][0] == 'cursor': continue
                 ccases.append({'shape': c['shape'], 'ops': c['ops'], 'crash_at': k, 'name': c['name'], 'ncalls': n})
     outs1 = cc.run_driver({'mode': 'sessions', 'cases': fcases}, timeout=1200)
     couts = cc.run_driver({'mode': 'crash_batch', 'cases': ccases}, timeout=1200)
